@@ -19,7 +19,8 @@ def opAnnounce (l : Line) : Except String String := do
   let f (k : String) : Option String := match l.get k with | "absent" => none | v => some v
   let sig := (l.get "sig").toInt?.getD (-1)
   let t : Token := { parses := (← l.bool "parses"), iss := f "iss", aud := (f "aud").map (·.splitOn "+"), infohashClaim := f "ihc",
-                     kid := f "kid", algRS256 := (← l.bool "alg"), sigOK := fun k => (k : Int) == sig, exp := optInt (l.get "exp"), nbf := optInt (l.get "nbf") }
+                     kid := f "kid", algRS256 := (← l.bool "alg"), sigOK := fun k => (k : Int) == sig, exp := optInt (l.get "exp"), nbf := optInt (l.get "nbf"),
+                     expMalformed := l.get "exp" == "malformed", nbfMalformed := l.get "nbf" == "malformed" }
   let v := handleAnnounce cfg keys "ok" 0 (some t)
   pure ((match v with | .accept => "accept" | .missing => "missing" | .invalid => "invalid") ++ "\t" ++ (match v with | .accept => "accept" | _ => "reject:" ++ l.get "why"))
 
